@@ -9,7 +9,7 @@ COQ_EXEC = ['exec.X_group', 'exec.X_sort']
 COQ_IMPORTS = 'From PB Require Import model.M_sort model.M_group.\n'
 PER_FILE = 400
 CASE_TIMEOUT = 5
-RULE = ('cases: tables of 0-8 rows (thorough 0-12) and 2-4 columns with scalar cells (None, ints incl. adjacent ints beyond 2^53, floats incl. 1 vs 1.0 and float(2**53), NaN, strings, datetimes); keys = every '
+RULE = ('cases: tables of 0-8 rows (thorough 0-12) and 2-4 columns with scalar cells (None, ints incl. adjacent ints beyond 2^53, floats incl. 1 vs 1.0, float(2**53) and +-inf, NaN, strings, datetimes); keys = every '
         'kind of non-empty proper subset of the columns, duplicate / unique / mixed-type key columns, NaN objects of different identity in key columns. '
         '(1) listby(by) and listby(by).unlist(), (2) groupby(by) (key table, every sub-table) and .ungroup(), incl. the ValueError on all columns, '
         '(3) xyz(x, y, z, agg) for agg in None/last/first/len/sum, x columns named name/date/key1 passed as a string or as a list, y values that are strings '
@@ -30,7 +30,7 @@ EXPLANATION = ('theorems C11_* (coq/props/C11.v), for every table and key choice
 TRUSTED = ['modelled, not verified: dictable construction / concat / dict_concat plumbing (column order is observed up to sorting), CPython sorted() is stable',
            'the theorems are about the Gallina model (M_group.v); its agreement with _dictable.py is what the correspondence checks']
 ASSUMPTIONS = ['groupby: the name of the column of sub-tables (grp=, default \'grp\') is not the name of a KEY column - the key table cannot hold both, the unchanged code silently overwrites the key column (proposed repair: fixes/C11.patch raises ValueError); VALUE columns of that name are generated and must survive ungroup',
-               '+-inf key cells are one key together with NaN, by library design (cmp ranks nan and +-inf alike: `is_nan` documents "nan or inf"); they are not generated',
+               '+-inf key cells are keys of their own (-inf, +inf and NaN are three different keys since fixes/C07-inf.patch) and are generated in the key pools',
                'datetime, pd.Timestamp and np.datetime64 cells of equal value are one key (generated in the dates columns)', 'ints are exact at any size (adjacent ints beyond 2^53, 10**30 and float(2**53) are in the key pools); cells are scalars; keys are grouped with cmp(...) == 0 as /repo does since 9228ab2 (any two NaN are one key)', 'key columns are distinct existing names',
                'pivot: y values are strings, ints or half-integer floats whose labels do not collide with x column names or each other; unpivot is not observed for float y; table non-empty']
 EXHAUSTIVE = {'quick': False, 'thorough': False}
